@@ -172,8 +172,11 @@ class IdentityRun(PubSubRun):
             a.protected = True
             a.open()
             proto = via[4:]
+            hs = ch.weighted("id.hdr_src", [(5, None), (1, 0), (1, 9), (1, 90)]) if proto != "v1" else None
+            if hs is not None:
+                self.res.probes["v2_header_source_differs"] += 1
             a.handshake(proto, req_id=o["rid"], logger=o["logger"], allow_multiple=o["multi"], name=o["name"],
-                        pid=6000 + idx, daemon=o["daemon"])
+                        pid=6000 + idx, daemon=o["daemon"], hdr_src=hs)
             a.subscribe(T)
             a.opts = o
             a.via = via
